@@ -53,7 +53,7 @@ def gen_requests(rng, n_per_codec, codecs=(RS28, RS2M, LDPC), big=False):
                 k = rng.rng(1, 40 if not big else 200); r = rng.rng(1, min(30, 255 - k)); p1 = p2 = 0
                 L = rng.choice([1, 2, 3, 4, 7, 8, 15, 16, 17, 31, 33]) if rng.chance(1, 2) else rng.rng(1, 70)   # every residue of the 16/32-byte unrolled kernels
             elif codec == RS2M:
-                m = rng.choice([4, 8]); p1, p2 = m, 0
+                m = rng.choice([4, 8]); p1, p2 = m, rng.choice([0, 0, 4, 8])     # p2: field size set beforehand through of_set_control_parameter (the parameters decide)
                 if m == 4:
                     k = rng.rng(1, 14); r = rng.rng(1, 15 - k)
                 else:
@@ -77,7 +77,7 @@ def gen_requests(rng, n_per_codec, codecs=(RS28, RS2M, LDPC), big=False):
             api = rng.below(2)
             if api == 1:
                 esis = sorted(set(esis))
-            reqs.append(Req(codec, k, r, L, p1, p2, api, rng.below(4), rng.choice([0, 1, 1]), rng.choice([2, 2, 2, 3]),
+            reqs.append(Req(codec, k, r, L, p1, p2, api, rng.below(4), rng.choice([0, 1, 1]), rng.choice([2, 2, 2, 3, 4]),
                             esis, pseed=rng.below(10 ** 9)))
     return reqs
 
@@ -92,6 +92,8 @@ def oracles(q, a):
     if a.P != 0 or a.Q != 0:
         out.append(("C09", "valid-params-rejected", "valid parameters rejected (P=%s Q=%s)" % (a.P, a.Q)))
         return out
+    if getattr(a, "ED", None) == 0:
+        out.append(("C06", "encdec-build", "an OF_ENCODER_AND_DECODER session built repair symbols that are not the codeword's (or refused to build)"))
     if any(ch != "0" for ch in a.B):
         out.append(("C06", "build-status", "of_build_repair_symbol statuses %s" % a.B))
     recv = []            # distinct ESIs submitted so far
@@ -112,6 +114,8 @@ def oracles(q, a):
             recv = sorted(set(q.esis))
         if st != 0:
             out.append(("C10", "submit-status", "submission call %d returned status %d" % (j, st)))
+        if "!" in sm:
+            out.append(("C10", "table-stale", "of_get_source_symbols_tab returned OK after call %d but left entries of the caller's table unwritten (%s)" % (j, sm)))
         allsrc = sm.count("1") == k
         if q.codec in (LDPC, P2D) or comp:
             if comp != (1 if allsrc else 0):
@@ -156,7 +160,11 @@ def oracles(q, a):
     # ---- final table
     if a.E is not None:
         E = a.E
+        if "!" in E:
+            out.append(("C10", "table-stale", "of_get_source_symbols_tab returned OK but left entries of the caller's table unwritten (%s): a reused table would show stale pointers" % E))
         for i, ch in enumerate(E):
+            if ch == "!":
+                continue
             if ch != "." and ch.islower():
                 out.append(("C01" if q.codec != P2D else "C16", "wrong-symbol", "source symbol %d is available but differs from the encoded one" % i))
             if ch in "Xx":
